@@ -369,11 +369,18 @@ pub fn run() -> Report {
         rep.not_covered.push(format!("{} of {} layouts could not be judged: the run delivers other heights than the layout model (a matter of C02 / C04)", nj, rep.states));
     }
     // large disjoint layouts
-    for (files, obfuscated) in [(200usize, false), (1200, false), (200, true)] {
+    for (files, obfuscated, name_style) in [(200usize, false, 0u8), (1200, false, 0), (200, true, 0), (200, false, 1), (200, false, 2)] {
         let wk = Worker::new(&root, 600);
         let big = dependent_chain(btc, 0, files);
         let assign: Vec<usize> = (0..files).collect();
         let mut world = world_for(&big, &assign);
+        // the zero-padding of file names is not fixed (C03): numbers without padding, numbers padded to nine digits
+        if name_style != 0 {
+            for (n, f) in world.files.iter_mut() {
+                f.name = if name_style == 1 { format!("blk{}.dat", n) } else { format!("blk{:09}.dat", n) };
+            }
+            rep.count("large-layout-with-other-file-name-padding", 1);
+        }
         if obfuscated {
             // a feature that has nothing to do with descriptors (block-file obfuscation) must not change how many are held
             world.xor_key = Some(vec![0x3d, 0x9a, 0x00, 0xc7, 0x51, 0xee, 0x08, 0xb2]);
@@ -384,7 +391,7 @@ pub fn run() -> Report {
             continue;
         }
         rep.states += 1;
-        rep.nontrivial.insert(h8(format!("large{}{}", files, obfuscated).as_bytes()));
+        rep.nontrivial.insert(h8(format!("large{}{}{}", files, obfuscated, name_style).as_bytes()));
         let mut spec = RunSpec::new("bitcoin", "csvdump");
         spec.rlimit_nofile = n1;
         let r: RunResult = wk.run(&spec);
